@@ -1,81 +1,20 @@
-// c19_rebind_arity.rs.txt — NOT COMPILED (note the .txt): rebind_if_ok!/try_rebind! wrappers and
-// harnesses for Ok payloads with 3..=6 components (property C19: "a tuple of up to six components").
-//
-// FINDING (defect D5, genuine): on the unchanged /repo every invocation of `rebind_if_ok!` or
-// `try_rebind!` with THREE OR MORE components is rejected by rustc, whatever the position kinds
-// (existing place, `let x`, `let x: T`, `_`).  Arity 1 and 2 compile (and verify: c19.rs).
-//
-// Cause: konst/src/macros/parsing_macros.rs:146, third arm of `__priv_next_ai_access`, transcribes
-//     $crate::__priv_assign_tuple!($var,($($rem_fields:tt)*), $($rem)+)
-// i.e. it writes the fragment specifier `:tt` into the OUTPUT, so the field list `(1 2 3 4 5)`
-// becomes `(1:tt 2:tt 3:tt 4:tt 5:tt)`; the second component still finds `1`, the third finds `:`
-// and the macro emits `tuple.:`.
-//
-// Native reproduction (scratch cargo project depending on /repo/konst by path,
-// features rust_1_83+parsing, `cargo check --offline`, rustc 1.95.0):
-//
-//     use konst::{rebind_if_ok, try_rebind};
-//     fn r3(r: Result<(u8, u8, u8), u8>) -> (u8, u8, u8) {
-//         let (mut a, mut b, mut c) = (0u8, 0u8, 0u8);
-//         rebind_if_ok!{(a, b, c) = r}
-//         (a, b, c)
-//     }
-//     fn t3(r: Result<(u8, u8, u8), u8>) -> Result<(u8, u8, u8), u8> {
-//         let (mut a, mut b, mut c) = (0u8, 0u8, 0u8);
-//         try_rebind!{(a, b, c) = r}
-//         Ok((a, b, c))
-//     }
-//
-// exact compiler output (identical, up to the span, for arities 4, 5, 6 and for any mix of
-// `let x`, `let x: T`, `_`, e.g. `rebind_if_ok!{(a, let x, _, d) = r}` and
-// `try_rebind!{(a, let b, let c: u8, _, let e, let f) = r}`):
-//
-//     error: unexpected token: `:`
-//      --> src/main.rs:5:5
-//       |
-//     5 |     rebind_if_ok!{(a, b, c) = r}
-//       |     ^^^^^^^^^^^^^^^^^^^^^^^^^^^^
-//       |
-//       = note: this error originates in the macro `$crate::__priv_next_ai_access` which comes from the expansion of the macro `rebind_if_ok` (in Nightly builds, run with -Z macro-backtrace for more info)
-//
-//     error: expected one of `.`, `;`, `?`, `}`, or an operator, found `:`
-//      --> src/main.rs:5:5
-//       |
-//     5 |     rebind_if_ok!{(a, b, c) = r}
-//       |     ^^^^^^^^^^^^^^^^^^^^^^^^^^^^ expected one of `.`, `;`, `?`, `}`, or an operator
-//       |
-//       = note: this error originates in the macro `$crate::__priv_next_ai_access` which comes from the expansion of the macro `rebind_if_ok` (in Nightly builds, run with -Z macro-backtrace for more info)
-//
-//     error: unexpected token: `:`
-//       --> src/main.rs:10:5
-//        |
-//     10 |     try_rebind!{(a, b, c) = r}
-//        |     ^^^^^^^^^^^^^^^^^^^^^^^^^^
-//        |
-//        = note: this error originates in the macro `$crate::__priv_next_ai_access` which comes from the expansion of the macro `try_rebind` (in Nightly builds, run with -Z macro-backtrace for more info)
-//
-//     error: expected one of `.`, `;`, `?`, `}`, or an operator, found `:`
-//       --> src/main.rs:10:5
-//        |
-//     10 |     try_rebind!{(a, b, c) = r}
-//        |     ^^^^^^^^^^^^^^^^^^^^^^^^^^ expected one of `.`, `;`, `?`, `}`, or an operator
-//        |
-//        = note: this error originates in the macro `$crate::__priv_next_ai_access` which comes from the expansion of the macro `try_rebind` (in Nightly builds, run with -Z macro-backtrace for more info)
-//
-//     (when a `let` position follows, the second message reads
-//      "expected one of `.`, `;`, `?`, `else`, or an operator, found `:`")
-//
-// HOW TO USE THIS FILE: once the macro is fixed, append everything below to c19.rs (it uses
-// `rb_case!`, `rb_chk!`, `Places`, `E` from there).  Checked on a private copy of /repo with the
-// one-token fix `($($rem_fields:tt)*)` -> `($($rem_fields)*)`: the 136 wrapper pairs compile and all
-// 18 harnesses verify (0 failed, all covers satisfied, 14..41 s each).
-//
-// Patterns: arity 3 = all 4^3 mixes of {p = existing place, l = `let x`, t = `let x: u8`, u = `_`};
-// arities 4, 5, 6 = the four uniform rows, every "one odd position (l/t/u) among places" row and
-// every "one place among lets" row.  Post-condition (rb_chk!): on Ok every listed place holds its
-// component, every `let` saw its component, in order, nothing else changed, trailing code ran /
-// execution continued; on Err nothing changed and rebind_if_ok! skipped its code / try_rebind!
-// returned the same Err.
+//! C19 — rebind_if_ok!/try_rebind! with Ok payloads of 3..=6 components ("a tuple of up to six components").
+//! Separate module with a *compile obligation* (`C19.rebind.arity3_to_6.compiles`): on the original tree
+//! every invocation with three or more components was rejected by rustc (defect D5: `$rem_fields:tt`
+//! written in a transcriber of `__priv_next_ai_access`, konst/src/macros/parsing_macros.rs), so this
+//! module did not build.  /verif/bin/check first `cargo check`s it natively; a build error located in this
+//! file is reported as a VIOLATION whose replay is the program, and the module is left out of the Kani run.
+//! Uses `rb_case!`, `rb_chk!`, `Places`, `E` from c19.rs (declared `#[macro_use]` before this module).
+//!
+//! Patterns: arity 3 = all 4^3 mixes of {p = existing place, l = `let x`, t = `let x: u8`, u = `_`};
+//! arities 4, 5, 6 = the four uniform rows, every "one odd position (l/t/u) among places" row and
+//! every "one place among lets" row.  Post-condition (rb_chk!): on Ok every listed place holds its
+//! component, every `let` saw its component, in order, nothing else changed, trailing code ran /
+//! execution continued; on Err nothing changed and rebind_if_ok! skipped its code / try_rebind!
+//! returned the same Err.
+use crate::c19::*;
+use crate::hlib::*;
+use konst::{rebind_if_ok, try_rebind};
 
 // ---- arity 3: all 4^3 patterns
 rb_case! {a3_ppp, b"ppp", (u8, u8, u8), [p0 p1 p2 p3 p4 p5], o, (p0, p1, p2)}
